@@ -17,7 +17,7 @@ fn main() {
     let cmd = args.get(1).map(|s| s.as_str()).unwrap_or("");
     match cmd {
         "golden" => {
-            let (n, bad) = golden::check("/verif/golden/ref.json", args.iter().any(|a| a == "-v"));
+            let (n, bad) = golden::check(&format!("{}/golden/ref.json", report::verif_dir()), args.iter().any(|a| a == "-v"));
             for b in &bad {
                 println!("MISMATCH {b}");
             }
@@ -38,7 +38,7 @@ fn main() {
         "selftest" => {
             // calibration of the statistical rule + golden agreement; `--fast` = 1 repeat at n = 1e6
             let fast = args.iter().any(|a| a == "--fast");
-            let (n, bad) = golden::check("/verif/golden/ref.json", false);
+            let (n, bad) = golden::check(&format!("{}/golden/ref.json", report::verif_dir()), false);
             println!("golden rows checked: {n}, mismatches: {}", bad.len());
             let (cells, false_rej, planted, missed, msgs) = selftest::run(if fast { 1 } else { 40 }, 1_000_000);
             for m in &msgs { println!("{m}"); }
@@ -55,8 +55,8 @@ fn main() {
                 Some(msg) => {
                     let prop = match target.as_str() { "stream_case" => "C03", "ctor_case" => "C04", "tree_history" => "C09", _ => "C14" };
                     let prop = args.get(4).cloned().unwrap_or_else(|| prop.to_string());
-                    let dst = format!("/verif/replays/{}-fuzz-{:08x}.bin", prop, rng::hstr(&msg) & 0xffff_ffff);
-                    let _ = std::fs::create_dir_all("/verif/replays");
+                    let dst = format!("{}/replays/{}-fuzz-{:08x}.bin", report::verif_dir(), prop, rng::hstr(&msg) & 0xffff_ffff);
+                    let _ = std::fs::create_dir_all(format!("{}/replays", report::verif_dir()));
                     let _ = std::fs::copy(&path, &dst);
                     println!("VIOLATION property={} replay={}", prop, dst);
                     println!("  detail: fuzz target {target}: {}", msg.chars().take(600).collect::<String>());
